@@ -53,6 +53,8 @@ def wide_schema():
 def int_boundary(kind):
     lo, hi = RANGE[kind]
     s = {0, 1, lo, hi, hi - 1, lo + 1 if lo < 0 else 2, 127, 128, 16383, 16384, 2**31 - 1, 2**31, 2**32 - 1, 2**32, 2**63 - 1, -1, -128, -2**31, -2**31 - 1, -2**63}
+    for k in range(6, 64, 7):          # sizes change at 7-bit boundaries (also of the zig-zag image)
+        s |= {2**k, 2**k - 1, -2**k, -2**k - 1, 2**(k + 1), 2**(k + 1) - 1, -2**(k + 1), -2**(k + 1) - 1}
     if kind == "enum":
         s |= {2, 7, -7, 99}
     return sorted(x for x in s if lo <= x <= hi)
